@@ -4,7 +4,7 @@ import json, os
 ROOT = os.path.dirname(os.path.dirname(os.path.abspath(__file__)))
 BASE = "cd /repo && /venv/bin/python -m pytest -ra -q -p no:cacheprovider --timeout=900 --continue-on-collection-errors"
 TECH = 'SMT (z3) over lifted symbolic execution of the real set-up/output code; '
-NOTE = ('Trusted: z3 5.1 (cvc5 cross-check on samples in the thorough tier), CPython/numpy object-dtype loops, pandas for structure, '
+NOTE = ('Some cases are decided by the machinery of another property\'s module (delegated cases, DESIGN 2.2: solver recorder of C03, history machinery of C10, periodic mapping of C07) and reported by this check. Trusted: z3 5.1 (cvc5 cross-check on samples in the thorough tier), CPython/numpy object-dtype loops, pandas for structure, '
         'the shims of DESIGN 2.2 (validated against the unshimmed code on every run), the LP semantics F (vf/lpsem.py). '
         'Exact real arithmetic (floats read as rationals); structure ranges over the stated catalogue only. ')
 CHECKS = {
@@ -46,7 +46,7 @@ CHECKS = {
          'For adversarial namings (numeric, prefix/suffix, separators, swapped, spaces, longer out-node name, 2-digit index collisions) and asset orders (all 24 in the thorough tier), one- and two-node storage and a LinkedAsset referenced by name: feasible set, value and every reported dispatch/DCF/storage cell coincide with the baseline for all parameter values, prices and feasible points. Names come from a fixed list (structure), numbers are symbolic.'),
 
  'C10': ('bounded exhaustive enumeration of call histories on shared objects, each decided by Q2 term-by-term equality of the lifted final problem with a fresh object\'s problem (symbolic data); cache poisoning', '6 C10',
-         'All histories up to length 1 (quick) / 2 (thorough) over 8 operations x 5 final set-ups x 3 portfolios (interval dictionaries with/without end, take dictionaries, own frequency/window/wacc, scaled and structured wrappers, order book): the final problem equals the fresh one for all parameter values and prices, no later call crashes, and no result depends on a cache an earlier call left on the grid. Histories are enumerated (bounded), data are symbolic.'),
+         'All histories up to length 1 (quick) / 2 (thorough) over 12 operations (set-ups on 7 grids, the same grid object again, split set-up, cost samples, a shared price frame, the portfolio wrapped in a structured asset) x 7 final set-ups plus 4 further final call forms (portfolio / every asset alone without the grid argument, split set-up, cost samples from a refilled sample dictionary) x 5 portfolios (interval dictionaries with/without end, take dictionaries, own frequency/window/wacc, scaled and structured wrappers, order book): the final problem equals the fresh one for all parameter values and prices, no later call crashes, and no result depends on a cache an earlier call left on the grid. Histories are enumerated (bounded), data are symbolic.'),
 
  'C03': ('Q2/Q1 on the real optimize() executed against a recorder stub of cvxpy with fully symbolic problems (all row-type strings, adversarial mappings) + solver contract; concrete contract validation against the real solvers with z3 Optimize as oracle', '6 C03',
          'EAO\'s own part of the optimiser (hand-over of bounds/rows/booleans/objective, result assembly, status handling, dual bookkeeping, split merging) is decided for ALL coefficient values of m<=3 x 3 problems over every row-type string and mapping shape, and for assembled LP/MIP problems; that the native solver answers optimally is an explicit contract, validated on seeded instances with every installed solver (instance testing, reported as such).'),
